@@ -2,7 +2,10 @@
 
 Read from the current source by `ast` (never imported, never executed):
   core/baseisotherm.py   SHORTHANDS, BaseIsotherm._required_params / _unit_params / _reserved_params, __init__ argument names,
-                         the ORDER in which __init__ assigns attributes of self
+                         the ORDER in which __init__ assigns attributes of self; BaseIsotherm.to_dict statement by statement as a
+                         straight-line program (to_dict_program); for every method of the three isotherm classes the names it binds on
+                         the isotherm object (method_assigns: assignments, deletions, loop / with targets, setattr with a literal name,
+                         in-place writes of the metadata dict)
   core/pointisotherm.py  PointIsotherm._reserved_params (= Base + [...]), __init__ argument names, attributes assigned by __init__
   core/modelisotherm.py  ModelIsotherm._reserved_params, __init__ argument names, attributes assigned by __init__
   core/material.py       Material._reserved_params
@@ -91,6 +94,231 @@ def init_info(cls, path):
     raise Unsupported('%s: %s.__init__ not found' % (path, cls.name))
 
 
+def _self_attr(node):
+    """`self.X` -> 'X' (else None)"""
+    if isinstance(node, ast.Attribute) and isinstance(node.value, ast.Name) and node.value.id == 'self':
+        return node.attr
+    return None
+
+
+def _targets(node):
+    """flatten assignment targets (tuples / lists / starred)"""
+    if isinstance(node, (ast.Tuple, ast.List)):
+        for e in node.elts:
+            yield from _targets(e)
+    elif isinstance(node, ast.Starred):
+        yield from _targets(node.value)
+    else:
+        yield node
+
+
+# methods of containers that change the container in place
+_MUTATING_CALLS = {'update', 'pop', 'popitem', 'clear', 'setdefault', 'append', 'extend', 'insert', 'remove', 'sort', 'reverse',
+                   '__setitem__', '__delitem__', '__setattr__', '__delattr__'}
+
+
+def method_census(cls, path, setters):
+    """For every method of the class whose first argument is `self`: what it binds ON THE ISOTHERM OBJECT.
+       'X'    self.X = / += / del self.X / for self.X in / with .. as self.X / setattr(self, 'X', ..) / delattr(self, 'X')
+              (a name with a property setter is recorded under the attribute the setter stores: '_X')
+       'X[]'  self.X[..] = / += / del self.X[..]   and in-place container methods self.X.update(..) / .pop / .clear / ...
+              only for X = properties (the metadata dict) - other held objects (data frame, model) are the business of C04
+       Anything that reaches the instance dictionary by another way (self.__dict__, vars(self) other than `vars(self).copy()`,
+       setattr / delattr with a computed name) aborts: fail-closed.
+       -> [(method, kind, [names])] for methods binding something; kind: init | setter | property | method"""
+    out = []
+    for st in cls.body:
+        if not isinstance(st, (ast.FunctionDef, ast.AsyncFunctionDef)):
+            continue
+        allargs = st.args.posonlyargs + st.args.args
+        if not allargs or allargs[0].arg != 'self':
+            continue
+        kind = 'method'
+        for d in st.decorator_list:
+            if isinstance(d, ast.Attribute) and d.attr == 'setter':
+                kind = 'setter'
+            elif isinstance(d, ast.Name) and d.id == 'property':
+                kind = 'property'
+            elif isinstance(d, ast.Attribute) and d.attr in ('getter', 'deleter'):
+                kind = 'setter' if d.attr == 'deleter' else 'property'
+        if st.name == '__init__':
+            kind = 'init'
+        names = []
+
+        def rec(n):
+            if n not in names:
+                names.append(n)
+
+        def bind(t):
+            for x in _targets(t):
+                a = _self_attr(x)
+                if a is not None:
+                    rec('_' + a if a in setters else a)
+                elif isinstance(x, ast.Subscript):
+                    b = _self_attr(x.value)
+                    if b == 'properties':
+                        rec(b + '[]')
+        where = '%s: %s.%s' % (path, cls.name, st.name)
+        allowed_vars = set()
+        for n in ast.walk(st):
+            # vars(self).copy() is the one reading use of the instance dictionary that is understood
+            if isinstance(n, ast.Call) and isinstance(n.func, ast.Attribute) and n.func.attr == 'copy' and not n.args \
+               and isinstance(n.func.value, ast.Call) and isinstance(n.func.value.func, ast.Name) and n.func.value.func.id == 'vars':
+                allowed_vars.add(id(n.func.value))
+        for n in ast.walk(st):
+            if isinstance(n, ast.Assign):
+                for t in n.targets:
+                    bind(t)
+            elif isinstance(n, (ast.AugAssign, ast.AnnAssign)):
+                if not (isinstance(n, ast.AnnAssign) and n.value is None):
+                    bind(n.target)
+            elif isinstance(n, ast.Delete):
+                for t in n.targets:
+                    bind(t)
+            elif isinstance(n, (ast.For, ast.AsyncFor, ast.comprehension)):
+                bind(n.target)
+            elif isinstance(n, ast.withitem) and n.optional_vars is not None:
+                bind(n.optional_vars)
+            elif isinstance(n, ast.Attribute) and n.attr == '__dict__' and isinstance(n.value, ast.Name) and n.value.id == 'self':
+                raise Unsupported(where + ': self.__dict__ is used')
+            elif isinstance(n, ast.Call):
+                f = n.func
+                if isinstance(f, ast.Name) and f.id in ('vars', 'setattr', 'delattr', 'object'):
+                    on_self = bool(n.args) and isinstance(n.args[0], ast.Name) and n.args[0].id == 'self'
+                    if f.id == 'vars' and on_self and id(n) not in allowed_vars:
+                        raise Unsupported(where + ': vars(self) is used other than as vars(self).copy()')
+                    if f.id in ('setattr', 'delattr') and on_self:
+                        if len(n.args) >= 2 and isinstance(n.args[1], ast.Constant) and isinstance(n.args[1].value, str):
+                            a = n.args[1].value
+                            rec('_' + a if a in setters else a)
+                        else:
+                            raise Unsupported(where + ': %s(self, <computed name>, ..)' % f.id)
+                elif isinstance(f, ast.Attribute) and f.attr in _MUTATING_CALLS:
+                    if _self_attr(f.value) == 'properties':
+                        rec('properties[]')
+                    elif isinstance(f.value, ast.Name) and f.value.id == 'self' and f.attr in ('__setattr__', '__delattr__'):
+                        raise Unsupported(where + ': self.%s(..)' % f.attr)
+        if names:
+            out.append((st.name, kind, names))
+    return out
+
+
+def to_dict_program(cls, path):
+    """BaseIsotherm.to_dict as a straight-line program over ONE dictionary variable, in a closed set of statement shapes:
+         D = vars(self).copy()                                   ('vars', '', '')
+         D[k] = str(D.pop(a))                                    ('pop_str', a, k)
+         D[k] = D.pop(a)                                         ('pop', a, k)
+         x = D.pop(a)                                            ('pop_local', a, x)
+         if x.properties: D[k] = x.to_dict() else: D[k] = str(x) ('dict_or_str_of_local', x, k)
+         D[k] = self.a                                           ('self_attr', a, k)     (a may be a property: its VALUE)
+         for p in self._reserved_params: D.pop(p, None)          ('remove_reserved', '', '')
+         D.update(D.pop(a))                                      ('merge_pop', a, '')
+         return D                                                ('return', '', '')
+       Any other statement aborts (fail-closed)."""
+    fn = None
+    for st in cls.body:
+        if isinstance(st, ast.FunctionDef) and st.name == 'to_dict':
+            fn = st
+    if fn is None:
+        raise Unsupported('%s: %s.to_dict not found' % (path, cls.name))
+    if [a.arg for a in fn.args.args] != ['self'] or fn.args.vararg or fn.args.kwarg or fn.args.kwonlyargs:
+        raise Unsupported(path + ': to_dict takes arguments')
+    body = list(fn.body)
+    if body and isinstance(body[0], ast.Expr) and isinstance(body[0].value, ast.Constant) and isinstance(body[0].value.value, str):
+        body = body[1:]
+    D = None
+    ops = []
+
+    def is_D(n):
+        return isinstance(n, ast.Name) and n.id == D
+
+    def const_str(n):
+        return n.value if isinstance(n, ast.Constant) and isinstance(n.value, str) else None
+
+    def pop_of(n, nargs=1):
+        """D.pop('a') -> 'a'"""
+        if isinstance(n, ast.Call) and isinstance(n.func, ast.Attribute) and n.func.attr == 'pop' and is_D(n.func.value) \
+           and len(n.args) == nargs and not n.keywords and const_str(n.args[0]) is not None:
+            return const_str(n.args[0])
+        return None
+
+    def store_key(st):
+        """D['k'] = value -> ('k', value)"""
+        if isinstance(st, ast.Assign) and len(st.targets) == 1 and isinstance(st.targets[0], ast.Subscript) and is_D(st.targets[0].value):
+            k = st.targets[0].slice
+            if const_str(k) is not None:
+                return const_str(k), st.value
+        return None
+
+    def str_of(n):
+        if isinstance(n, ast.Call) and isinstance(n.func, ast.Name) and n.func.id == 'str' and len(n.args) == 1 and not n.keywords:
+            return n.args[0]
+        return None
+
+    for st in body:
+        bad = Unsupported('%s: to_dict: statement outside the understood shapes at line %d: %s' % (path, st.lineno, ast.dump(st)[:160]))
+        if D is None:
+            v = st.value if isinstance(st, ast.Assign) and len(st.targets) == 1 and isinstance(st.targets[0], ast.Name) else None
+            if isinstance(v, ast.Call) and isinstance(v.func, ast.Attribute) and v.func.attr == 'copy' and not v.args \
+               and isinstance(v.func.value, ast.Call) and isinstance(v.func.value.func, ast.Name) and v.func.value.func.id == 'vars' \
+               and len(v.func.value.args) == 1 and isinstance(v.func.value.args[0], ast.Name) and v.func.value.args[0].id == 'self':
+                D = st.targets[0].id
+                ops.append(('vars', '', ''))
+                continue
+            raise bad
+        sk = store_key(st)
+        if sk is not None:
+            k, v = sk
+            if pop_of(v) is not None:
+                ops.append(('pop', pop_of(v), k))
+            elif str_of(v) is not None and pop_of(str_of(v)) is not None:
+                ops.append(('pop_str', pop_of(str_of(v)), k))
+            elif _self_attr(v) is not None:
+                ops.append(('self_attr', _self_attr(v), k))
+            else:
+                raise bad
+        elif isinstance(st, ast.Assign) and len(st.targets) == 1 and isinstance(st.targets[0], ast.Name) and pop_of(st.value) is not None:
+            ops.append(('pop_local', pop_of(st.value), st.targets[0].id))
+        elif isinstance(st, ast.If):
+            t = st.test
+            ok = (isinstance(t, ast.Attribute) and t.attr == 'properties' and isinstance(t.value, ast.Name)
+                  and len(st.body) == 1 and len(st.orelse) == 1)
+            if not ok:
+                raise bad
+            x = t.value.id
+            a, b = store_key(st.body[0]), store_key(st.orelse[0])
+            if a is None or b is None or a[0] != b[0]:
+                raise bad
+            va, vb = a[1], b[1]
+            if not (isinstance(va, ast.Call) and isinstance(va.func, ast.Attribute) and va.func.attr == 'to_dict' and not va.args
+                    and isinstance(va.func.value, ast.Name) and va.func.value.id == x):
+                raise bad
+            if not (str_of(vb) is not None and isinstance(str_of(vb), ast.Name) and str_of(vb).id == x):
+                raise bad
+            ops.append(('dict_or_str_of_local', x, a[0]))
+        elif isinstance(st, ast.For):
+            it = st.iter
+            ok = (_self_attr(it) == '_reserved_params' and isinstance(st.target, ast.Name) and len(st.body) == 1 and not st.orelse
+                  and isinstance(st.body[0], ast.Expr))
+            if not ok:
+                raise bad
+            c = st.body[0].value
+            if not (isinstance(c, ast.Call) and isinstance(c.func, ast.Attribute) and c.func.attr == 'pop' and is_D(c.func.value)
+                    and len(c.args) == 2 and isinstance(c.args[0], ast.Name) and c.args[0].id == st.target.id
+                    and isinstance(c.args[1], ast.Constant) and c.args[1].value is None):
+                raise bad
+            ops.append(('remove_reserved', '', ''))
+        elif isinstance(st, ast.Expr) and isinstance(st.value, ast.Call) and isinstance(st.value.func, ast.Attribute) \
+                and st.value.func.attr == 'update' and is_D(st.value.func.value) and len(st.value.args) == 1 and not st.value.keywords \
+                and pop_of(st.value.args[0]) is not None:
+            ops.append(('merge_pop', pop_of(st.value.args[0]), ''))
+        elif isinstance(st, ast.Return) and is_D(st.value):
+            ops.append(('return', '', ''))
+        else:
+            raise bad
+    return ops
+
+
 def cstr(s):
     if not isinstance(s, str):
         raise Unsupported('expected a string, got %r' % (s,))
@@ -144,6 +372,8 @@ def main(src, out):
     add('Definition base_attrs : list string := %s.' % clist(battrs))
     if bkw is None:
         raise Unsupported(path + ': BaseIsotherm.__init__ has no **properties')
+    census = [('BaseIsotherm', m, k, a) for m, k, a in method_census(base, path, setters)]
+    prog = to_dict_program(base, path)
     # ---- point / model isotherm
     for rel, cname, pre in (('core/pointisotherm.py', 'PointIsotherm', 'point'), ('core/modelisotherm.py', 'ModelIsotherm', 'model')):
         tree, path = parse(src, rel)
@@ -157,9 +387,25 @@ def main(src, out):
         args, attrs, kw = init_info(cls, path)
         if kw is None:
             raise Unsupported('%s: %s.__init__ has no **kwargs' % (path, cname))
+        own = set(setters)
+        for st in cls.body:
+            if isinstance(st, ast.FunctionDef):
+                if st.name == 'to_dict':
+                    raise Unsupported('%s: %s overrides to_dict' % (path, cname))
+                for d in st.decorator_list:
+                    if isinstance(d, ast.Attribute) and d.attr == 'setter':
+                        own.add(st.name)
+        census += [(cname, m, k, a) for m, k, a in method_census(cls, path, own)]
         add('Definition %s_reserved : list string := %s.' % (pre, clist(got)))
         add('Definition %s_ctor_args : list string := %s.' % (pre, clist(args)))
         add('Definition %s_attrs : list string := %s.' % (pre, clist(attrs)))
+    add('(* (class, method, kind, names the method binds on the isotherm object); kind: init | setter | property | method;')
+    add('   a name "X[]" = the metadata dictionary X is changed in place; methods binding nothing are not listed *)')
+    add('Definition method_assigns : list (string * string * string * list string) := [%s].'
+        % '; '.join('(%s, %s, %s, %s)' % (cstr(c), cstr(m), cstr(k), clist(a)) for c, m, k, a in census))
+    add('(* BaseIsotherm.to_dict as a straight-line program (opcode, argument, argument); see tools/py2v_tables.py to_dict_program *)')
+    add('Definition to_dict_program : list (string * string * string) := [%s].'
+        % '; '.join('(%s, %s, %s)' % (cstr(o), cstr(a), cstr(b)) for o, a, b in prog))
     # ---- material
     tree, path = parse(src, 'core/material.py')
     cls = find_class(tree, 'Material', path)
